@@ -5,7 +5,7 @@
 #include <gmssl/sm3.h>
 #include "verif.h"
 
-#define NCALL 8
+#define NCALL 12
 static uint8_t q_msg[NCALL][40]; static size_t q_len[NCALL]; static uint8_t q_out[NCALL][32]; static int q_n; static int q_badkey;
 #define KEYTAG 0x3c
 static const char *g_pass; static size_t g_passlen;
